@@ -97,6 +97,53 @@ func (t rlTarget) text() string {
 	}
 }
 
+// noCleanup returns the same target with a cleanup interval that never elapses.
+func (t rlTarget) noCleanup() rlTarget {
+	u := t
+	u.cfg.CleanupInterval = time.Duration(math.MaxInt64)
+	u.iv = time.Duration(math.MaxInt64)
+	return u
+}
+
+// execBits replays the calls on a fresh instance and returns only the admit bits.
+func execBits(t rlTarget, evs []rlEvent) []bool {
+	absnfs.VerifSetClock(t0ns)
+	defer absnfs.VerifSetClock(0)
+	var rl *absnfs.RateLimiter
+	var pl *absnfs.PerIPLimiter
+	var tb *absnfs.TokenBucket
+	switch t.kind {
+	case tFull:
+		rl = absnfs.NewRateLimiter(t.cfg)
+	case tPerIP:
+		pl = absnfs.NewPerIPLimiter(t.rate, t.burst, t.iv)
+	default:
+		tb = absnfs.NewTokenBucket(t.rate, t.burst)
+	}
+	out := make([]bool, 0, len(evs))
+	for _, e := range evs {
+		absnfs.VerifAdvanceClock(e.dt)
+		res := true
+		switch e.kind {
+		case evReq:
+			switch t.kind {
+			case tFull:
+				res = rl.AllowRequest(ipStr(e.ip), connStr(e.conn))
+			case tPerIP:
+				res = pl.Allow(ipStr(e.ip))
+			default:
+				res = tb.Allow()
+			}
+		case evOp:
+			res = rl.AllowOperation(ipStr(e.ip), opTypes[e.op])
+		case evClose:
+			rl.CleanupConnection(connStr(e.conn))
+		}
+		out = append(out, res)
+	}
+	return out
+}
+
 // runRL executes the calls on the real code under the virtual clock and renders the case.
 func runRL(t rlTarget, strict bool, evs []rlEvent, kind string, idx int) Case {
 	absnfs.VerifSetClock(t0ns)
@@ -283,8 +330,16 @@ func runRL(t rlTarget, strict bool, evs []rlEvent, kind string, idx int) Case {
 			tags["cfg_zero_burst"]++
 		}
 	}
-	coq := fmt.Sprintf("{| c_target := %s; c_strict := %s; c_evs := %s; c_obs := %s |}",
-		t.coq(), CBool(strict), CList(coqEvs), CList(coqObs))
+	// the same calls on an instance of the real code whose cleanup passes never run
+	var coqObsNC []string
+	for i, b := range execBits(t.noCleanup(), evs) {
+		coqObsNC = append(coqObsNC, CBool(b))
+		if CBool(b) != coqObs[i] {
+			tags["cleanup_visible"]++
+		}
+	}
+	coq := fmt.Sprintf("{| c_target := %s; c_strict := %s; c_evs := %s; c_obs := %s; c_obs_nc := %s |}",
+		t.coq(), CBool(strict), CList(coqEvs), CList(coqObs), CList(coqObsNC))
 	mode := "grid"
 	if !strict {
 		mode = "ns"
